@@ -23,7 +23,7 @@ type zzTemplate struct {
 	Pattern string
 	Parts   []zzPart
 	Methods map[string]string // method -> operation name (ogen's Route.Name())
-	Allow   string            // expected Allow header: defined methods, comma separated, in ogen's order
+	Allows  []string          // acceptable Allow header texts: the defined methods, comma separated, any order
 }
 
 var zzMethods = []string{"GET", "POST", "PUT", "OPTIONS"}
@@ -97,7 +97,8 @@ func containsByte(s string, c byte) bool {
 }
 
 // matchFrom: some choice of argument boundaries makes parts[i:] produce p[pos:].
-// strict: arguments are non-empty and contain no '/'; otherwise any text (the most liberal reading).
+// strict: arguments are non-empty and contain neither '/' nor a character of the set's tail set
+// (the values for which the property promises delivery); otherwise any text (the most liberal reading).
 func matchFrom(parts []zzPart, i int, p string, pos int, strict bool) bool {
 	if i == len(parts) {
 		return pos == len(p)
@@ -122,6 +123,9 @@ func matchFrom(parts []zzPart, i int, p string, pos int, strict bool) bool {
 		ok := matchFrom(parts, i+1, p, end, strict)
 		if strict {
 			ok = zz.And(ok, zz.Not(containsByte(p[pos:end], '/')))
+			for k := 0; k < len(zzTailSet); k++ {
+				ok = zz.And(ok, zz.Not(containsByte(p[pos:end], zzTailSet[k])))
+			}
 		}
 		res = zz.Or(res, ok)
 	}
@@ -275,7 +279,15 @@ func checkRequest(method, prefix, p string) int {
 		}
 	} else {
 		zz.Cover("findpath-not-found")
-		zz.Assert(zz.Not(anyStrictWithMethod), "P3: a path that is a strict instance of a template with this method is found")
+		// P3: a strict instance of a template defining this method is found - unless a matching template
+		// that does not define the method takes the request (a more specific known path: 405)
+		shadow := false
+		for _, t := range zzTemplates {
+			if _, ok := t.Methods[method]; !ok {
+				shadow = zz.Or(shadow, zzMatches(t, p, false))
+			}
+		}
+		zz.Assert(zz.Implies(anyStrictWithMethod, zz.And(shadow, rec.status == 405)), "P3: a path that is a strict instance of a template with this method is found (or a matching template without the method answers 405)")
 		zz.Assert(seen.calls == 0, "P5: no handler runs when FindPath finds nothing")
 		zz.Known("C05/options-204", method == "OPTIONS")
 		switch rec.status {
@@ -287,7 +299,9 @@ func checkRequest(method, prefix, p string) int {
 			allow := rec.header.Get("Allow")
 			okAllow := false
 			for _, t := range zzTemplates {
-				okAllow = zz.Or(okAllow, zz.And(zzMatches(t, p, false), allow == t.Allow))
+				for _, a := range t.Allows {
+					okAllow = zz.Or(okAllow, zz.And(zzMatches(t, p, false), allow == a))
+				}
 			}
 			zz.Assert(okAllow, "P4: Allow lists exactly the methods defined for a template matching the path")
 		default:
